@@ -81,6 +81,9 @@ def build_events(ctx, packages, configs, procs=8, force_verify=True):
     return events, obs, failures, stats
 
 
+MAX_REJECTIONS = 12
+
+
 def validate_pipeline(ctx, events, check_rt, name="pipe"):
     """Trace_Pipeline over the event list. A rejection is reported by the caller; validation resumes at the
     next Start record. Returns (events_validated, rejections[list of (index, record, context)])."""
@@ -90,6 +93,9 @@ def validate_pipeline(ctx, events, check_rt, name="pipe"):
     rnd = 0
     while evs:
         rnd += 1
+        if len(rejections) >= MAX_REJECTIONS:
+            log("[pipecheck] %d rejections; %d events left unvalidated" % (len(rejections), len(evs)))
+            break
         tp = os.path.join(ctx.work, "%s-%d.ndjson" % (name, rnd))
         write_ndjson(tp, evs)
         tr = ctx.tlc_trace("Trace_Pipeline", "Trace_PipelineRT" if check_rt else "Trace_Pipeline", tp, name="%s-%d" % (name, rnd), timeout=3600)
